@@ -187,6 +187,7 @@ func TestProp(t *testing.T) {
 		return js, err
 	}
 	if p.Fixed != nil {
+		fixedStart := time.Now()
 		p.Fixed(ctx, func(c interface{}, err error) {
 			js, _ := json.Marshal(c)
 			if !failed {
@@ -195,6 +196,8 @@ func TestProp(t *testing.T) {
 			failed = true
 			t.Errorf("fixed part: %v", err)
 		})
+		stats.Count("seconds_in_deterministic_part_all_shards", int64(time.Since(fixedStart).Seconds()))
+		stats.Note(fmt.Sprintf("shard %d: deterministic part %.0f s", shard, time.Since(fixedStart).Seconds()))
 	}
 	if p.Gen != nil && !failed {
 		// Stop gracefully ahead of the shard's time budget: rapid's own early exit keeps a margin of five
